@@ -24,6 +24,9 @@ PENDING = {}
 LEVEL_TEXT = 'Seeded search over schedules, configurations, fault sequences and operation histories with reference models as oracles; a clean batch is evidence, not proof.'
 
 CHECKS = {
+    'C10': dict(engine='simpool+simmpi', design='5/C10, 4.2',
+                technique='deterministic simulation: batch reassignment on simulated worker processes, simulated joblib and a drawn machine memory size (1..n batches), tape-chosen dispatch/completion order; partition step after serial and simulated-MPI clustering runs; brute-force nearest-centre oracle',
+                note='Trusted base: simpool/simmpi, mdtraj rmsd as reference metric for trajectories, float64 norms for features. <= 8 files x <= 8 frames, <= 5 centres; <= 40 frames for partition.'),
     'C15': dict(engine='simpool+simmpi', design='5/C15, 4.2',
                 technique='deterministic simulation: in-process multiprocessing.Pool with per-worker forked-globals overlays; tape-chosen worker count, dispatch/completion order, lazy vs eager background progress and read faults; striped loaders on simulated MPI ranks; save/load round trips against the saved rows',
                 note='Trusted base: simpool semantics (modelled on CPython multiprocessing.pool), mdtraj and PyTables as reference readers, NumPy. Tasks are atomic. <= 12 files x <= 12 frames x <= 9 atoms; <= 120 rows (1100 thorough).'),
